@@ -1228,9 +1228,10 @@ impl<'a> Run<'a> {
   }
 }
 
-// (the second fragment begins with the letters of the DID scheme: a fragment is whatever follows '#')
+// (the second fragment begins with the letters of the DID scheme: a fragment is whatever follows '#'; the fourth and
+// fifth differ only in that one writes a character percent-encoded: different strings, different entries)
 const FRAGS: [&str; 32] = [
-  "a", "didcomm", "/k/1", "d", "e", "f", "g", "h", "i", "j", "k", "l", "m", "n", "o", "p", "q", "r", "s", "t", "u", "v", "w", "x", "y", "z", "aa",
+  "a", "didcomm", "/k/1", "k-1", "k%2D1", "f", "g", "h", "i", "j", "k", "l", "m", "n", "o", "p", "q", "r", "s", "t", "u", "v", "w", "x", "y", "z", "aa",
   "ab", "ac", "ad", "ae", "af",
 ];
 
